@@ -221,9 +221,16 @@ def r04_3(ctx):
             bi, ct = js[0]
             a = [kind(x) for x in ct[2][2:5]]
             ok = a[0][0] == 'local' and a[0][2] == ('0',) and a[1][0] == 'local' and a[1][2] == () and a[2][0] == 'normal' and a[2][1] == a[0] and a[2][2] == ('payload', 'LineTo')
-            # only when a start normal already exists
-            gs = normalized_guards(ctx, b, bi)
-            ok = ok and any(op == '!true' and is_call(g, 'Option::<T>::is_none') for op, g, b2, si in gs)
+            # only when a start normal already exists: on every path to the join the first-segment record is Some
+            # (whichever way it is tested: is_none()/is_some(), if let, match)
+            import typestate
+            curs, recs = stroker_cur_rec(ctx, b, an, m)
+            if ok and len(curs) == 1 and len(recs) == 1:
+                at = typestate.run(ctx, b, [list(curs)[0], recs[0]])
+                sts = at.get(bi, set())
+                ok = bool(sts) and all(st[1] == 'S' for st in sts)
+            else:
+                ok = False
         ctx.check(ok, R, key + '|LineTo join', b.loc(), 'join_line(cursor, last_normal, normal(cursor, pt)) when a start exists', 'the LineTo arm does not join (cursor, last_normal, normal of the new segment) exactly when the subpath already has a first segment')
         # last_normal := normal on every emitted segment
         ln_defs = []
@@ -603,6 +610,12 @@ def r09_3(ctx):
     loops = cfg.loops()
     for mm in matches(ctx, b, 'Option'):
         sc = strip_all(mm.scrut)
+        # buf.split_first() / first() / last() / split_last() are None exactly when the buffer is empty
+        if is_call(sc, '::split_first', '::first', '::last', '::split_last') and len(sc[2]) == 1 and 'slice' in sc[1] and is_buf(sc[2][0]):
+            none_t = mm.arms.get('None', mm.otherwise)
+            if none_t is not None:
+                empty_edges.add((mm.bb, none_t))
+            continue
         if not is_call(sc, 'Iterator::next'):
             continue
         D = Deps(an)
@@ -669,7 +682,15 @@ def r09_4(ctx):
         if d.kind != 'assign' or d.partial:
             continue
         t = an.def_term(d)
-        if t[0] == 'bin' and t[1] == 'Mul' and const_val(t[3]) == 2.0 and t[2][0] in ('phi', 'rec'):
+        if t[0] == 'bin' and t[1] == 'Mul' and const_val(t[2]) == 2.0 and const_val(t[3]) != 2.0:
+            t = ('bin', 'Mul', t[3], t[2])
+        if t[0] == 'bin' and t[1] == 'Mul' and const_val(t[3]) == 2.0:
+            # the doubled operand is the sum of the array: an accumulator or a fold over it
+            if t[2][0] not in ('phi', 'rec'):
+                D0 = Deps(an)
+                D0.closure(t[2])
+                if not any(x == ('param', arr) for x in D0.visited):
+                    continue
             gs = normalized_guards(ctx, b, d.bb)
             for op, a, b2, si in gs:
                 if op == 'Eq' and const_val(b2) == 1 and a[0] == 'bin' and a[1] == 'Rem' and const_val(a[3]) == 2:
@@ -1299,17 +1320,8 @@ def r09_8(ctx):
               'an op sequence reaches the op loop with a current point but no subpath start (`%s` is Some while `%s` is None), e.g. a path that begins with line_to: Close then has nowhere to return to, the closing segment is not dashed and the cursor is lost, although flatten, the stroker and fill all treat the first line_to as the subpath start' % (b.local_name(cs[0]), b.local_name(cs[1])))
 
 
-def r04_9(ctx):
-    """subpath protocol of the stroker: the record of the subpath's first segment (start point and normal) exists only
-    while there is a current point (otherwise the caps and the closing join, which need both, are silently skipped)"""
-    import typestate
-    R = 'R04.9'
-    b = ctx.body(ST + 'stroke_to_path', R)
-    an = ctx.an(b)
-    key = 'stroke::stroke_to_path'
-    m = op_match(ctx, b, R)
-    if m is None:
-        return
+def stroker_cur_rec(ctx, b, an, m):
+    """(cursor locals, first-segment record locals) of stroke_to_path"""
     import props.c16 as c16
     curs = c16.cursor_locals(ctx, b, m)
     # the first-segment record: the named Option local holding a (point, normal) tuple
@@ -1323,6 +1335,21 @@ def r04_9(ctx):
         if m.bb in _bl:
             _inloop |= _bl
     recs = [i for i in recs if any(d.bb not in _arm_blocks and d.bb not in _inloop and d.bb >= 0 and d.kind != 'param' and an.cfg.dominates(d.bb, m.bb) for d in an.defs_of.get(i, []))]
+    return curs, recs
+
+
+def r04_9(ctx):
+    """subpath protocol of the stroker: the record of the subpath's first segment (start point and normal) exists only
+    while there is a current point (otherwise the caps and the closing join, which need both, are silently skipped)"""
+    import typestate
+    R = 'R04.9'
+    b = ctx.body(ST + 'stroke_to_path', R)
+    an = ctx.an(b)
+    key = 'stroke::stroke_to_path'
+    m = op_match(ctx, b, R)
+    if m is None:
+        return
+    curs, recs = stroker_cur_rec(ctx, b, an, m)
     if not ctx.check(len(curs) == 1 and len(recs) == 1, R, key + '|cursors', b.loc(), 'cursor and first-segment record found', 'cannot identify the cursor and the first-segment record of stroke_to_path (fail closed)'):
         return
     cur, rec = list(curs)[0], recs[0]
